@@ -187,6 +187,39 @@ fn disp_sink<T: core::fmt::Display>(t: &T) {
     sink(format!("{t}"));
 }
 
+/// keys whose compressed PUBLIC KEY ends with each of the special bytes (found by search with
+/// the library's own key derivation; about 256 candidates per byte)
+pub fn keys_with_special_pk_tail<C: Suite>() -> Vec<(u8, crate::refimpl::RS)> {
+    let mut found: Vec<(u8, crate::refimpl::RS)> = Vec::new();
+    let mut i = 0u64;
+    while found.len() < gen::SPECIAL_BYTES.len() && i < 200_000 {
+        let k = crate::refimpl::RS::from(i + 7) * crate::refimpl::RS::from(0x9e37_79b9_7f4a_7c15u64) + crate::refimpl::RS::from(i);
+        let last = *enc_pt(&sk_from_rs::<C>(&k).public_key().0).last().unwrap();
+        if gen::SPECIAL_BYTES.contains(&last) && !found.iter().any(|(b, _)| *b == last) {
+            found.push((last, k));
+        }
+        i += 1;
+    }
+    found
+}
+
+/// messages (counter-derived) whose signature under `sk` ends with each of the special bytes
+pub fn msgs_with_special_sig_tail<C: Suite>(sk: &SecretKey<C>, s: Scheme) -> Vec<(u8, Vec<u8>)> {
+    let mut found: Vec<(u8, Vec<u8>)> = Vec::new();
+    let mut i = 0u64;
+    while found.len() < gen::SPECIAL_BYTES.len() && i < 200_000 {
+        let m = format!("special tail {i}").into_bytes();
+        if let Ok(sig) = sk.sign(lscheme(s), &m) {
+            let last = *sig_pt_bytes(&sig).last().unwrap();
+            if gen::SPECIAL_BYTES.contains(&last) && !found.iter().any(|(b, _)| *b == last) {
+                found.push((last, m));
+            }
+        }
+        i += 1;
+    }
+    found
+}
+
 fn edge_sks<C: Suite>(rng: &mut ChaCha20Rng) -> Vec<(String, Sc<C>)> {
     gen::edge_scalars(rng).into_iter().map(|(n, s)| (n.to_string(), sc_from_rs::<C>(&s))).collect()
 }
@@ -203,7 +236,21 @@ impl<C: Suite> Subject<C> for SecretKey<C> {
         vec![sk_be::<C>(self)]
     }
     fn samples(_env: &Env<C>, rng: &mut ChaCha20Rng, _t: bool) -> Vec<(String, Self)> {
-        edge_sks::<C>(rng).into_iter().map(|(n, s)| (n, SecretKey(s))).collect()
+        let mut v: Vec<(String, Self)> = edge_sks::<C>(rng).into_iter().map(|(n, s)| (n, SecretKey(s))).collect();
+        for b in gen::SPECIAL_BYTES {
+            let mut be = [0x11u8; 32];
+            be[31] = b;
+            if let Some(k) = crate::refimpl::rs_from_be(&be) {
+                v.push((format!("be-tail={b:02x}"), SecretKey(sc_from_rs::<C>(&k))));
+            }
+            let mut be = [0x11u8; 32];
+            be[0] = b & 0x3f;
+            be[1] = b;
+            if let Some(k) = crate::refimpl::rs_from_be(&be) {
+                v.push((format!("be-head={b:02x}"), SecretKey(sc_from_rs::<C>(&k))));
+            }
+        }
+        v
     }
     fn consume(&self, env: &Env<C>) {
         sink(self.to_be_bytes());
@@ -291,6 +338,9 @@ impl<C: Suite> Subject<C> for PublicKey<C> {
         for (n, s) in edge_sks::<C>(rng) {
             v.push((format!("sk={n}"), SecretKey::<C>(s).public_key()));
         }
+        for (b, k) in keys_with_special_pk_tail::<C>() {
+            v.push((format!("tail={b:02x}"), sk_from_rs::<C>(&k).public_key()));
+        }
         v
     }
     fn consume(&self, env: &Env<C>) {
@@ -318,7 +368,13 @@ impl<C: Suite> Subject<C> for Signature<C> {
         vec![("sig", PtKind::Sig, sig_pt_bytes(self))]
     }
     fn samples(env: &Env<C>, _rng: &mut ChaCha20Rng, _t: bool) -> Vec<(String, Self)> {
-        sig_variants::<C, _>(env, |s, p| wrap_sig::<C>(s, p))
+        let mut v = sig_variants::<C, _>(env, |s, p| wrap_sig::<C>(s, p));
+        for s in SCHEMES {
+            for (b, m) in msgs_with_special_sig_tail::<C>(&env.sk, s) {
+                v.push((format!("{}/tail={b:02x}", s.name()), env.sk.sign(lscheme(s), &m).expect("sign")));
+            }
+        }
+        v
     }
     fn consume(&self, env: &Env<C>) {
         disp_sink(self);
@@ -436,6 +492,26 @@ impl<C: Suite> Subject<C> for ProofOfPossession<C> {
             ("identity".into(), ProofOfPossession(sig_id::<C>())),
             ("generator".into(), ProofOfPossession(sig_gen::<C>())),
         ]
+        .into_iter()
+        .chain({
+            // proofs whose encoding ends with a special byte (search over counter-derived keys)
+            let mut found: Vec<(String, ProofOfPossession<C>)> = Vec::new();
+            let mut seen: Vec<u8> = Vec::new();
+            let mut i = 0u64;
+            while seen.len() < gen::SPECIAL_BYTES.len() && i < 100_000 {
+                let k = crate::refimpl::RS::from(i + 11) * crate::refimpl::RS::from(0x9e37_79b9_7f4a_7c15u64);
+                if let Ok(p) = sk_from_rs::<C>(&k).proof_of_possession() {
+                    let last = *enc_pt(&p.0).last().unwrap();
+                    if gen::SPECIAL_BYTES.contains(&last) && !seen.contains(&last) {
+                        seen.push(last);
+                        found.push((format!("tail={last:02x}"), p));
+                    }
+                }
+                i += 1;
+            }
+            found
+        })
+        .collect()
     }
     fn consume(&self, env: &Env<C>) {
         disp_sink(self);
